@@ -1717,6 +1717,8 @@ class Series(ContainerOperand):
         if key:
             cfs = key(self)
             cfs_values = cfs if cfs.__class__ is np.ndarray else cfs.values
+            if cfs_values.ndim == 2: # a 2D array of one column
+                cfs_values = cfs_values[NULL_SLICE, 0]
         else:
             cfs_values = self.values
 
